@@ -359,6 +359,12 @@ theorem gs_unfarmAndWithdraw {cfg : Cfg} {s s' : State} {app user pool amt x y :
   rename_i s2 id h2
   exact (gs_unfarm h1).trans ((gs_withdrawReq h2).trans (gs_execWithdraw h))
 
+theorem gs_migrate {cfg : Cfg} {s s' : State} (h : migrate cfg s = some s') : GhostSame s s' := by
+  unfold migrate at h
+  split at h
+  · cases h; exact GhostSame.of_bank rfl
+  · cases h
+
 theorem gs_prePass {cfg : Cfg} {s s' : State} {k : OKey} (h : prePass cfg s k = some s') : GhostSame s s' := by
   unfold prePass at h
   split at h; · cases h
@@ -615,8 +621,8 @@ theorem step_solvent {cfg : Cfg} {s s' : State} {op : Op} (hc : OpConserving op)
     cases hd : withdrawReq cfg s a u p pc e with
     | none => simp [hd] at h
     | some r => obtain ⟨s1, id⟩ := r; simp [hd] at h; subst h; exact hs.of_gs (gs_withdrawReq hd)
-  | order a u p t b mo mp pr am l e => exact hs.of_gs (gs_placeOrder h)
-  | mmOrder a u p bs ss l e => exact hs.of_gs (gs_mmOrder h)
+  | order a u p t b od dd mo mp am l => obtain ⟨_, _, h⟩ := placeOrderMsg_core h; exact hs.of_gs (gs_placeOrder h)
+  | mmOrder a u p xs ns sa xb nb ba l => obtain ⟨_, _, h⟩ := mmOrderMsg_core h; exact hs.of_gs (gs_mmOrder h)
   | cancel a u p i => exact hs.of_gs (gs_cancelOrder h)
   | cancelAll a u ps => exact hs.of_gs (gs_cancelAll h)
   | cancelMM a u p => exact hs.of_gs (gs_cancelMM h)
@@ -626,6 +632,7 @@ theorem step_solvent {cfg : Cfg} {s s' : State} {op : Op} (hc : OpConserving op)
   | unfarmAndWithdraw a u p n x y e => exact hs.of_gs (gs_unfarmAndWithdraw h)
   | endBlock a ms ds ws => exact endBlock_solvent hc hs h
   | beginBlock a => simp only [step, Option.some.injEq] at h; subst h; exact hs.of_gs (GhostSame.of_bank rfl)
+  | migrate => exact hs.of_gs (gs_migrate h)
 
 theorem stepT_solvent {cfg : Cfg} {s : State} {op : Op} (hc : OpConserving op) (hs : Solvent s) : Solvent (stepT cfg s op) := by
   unfold stepT
